@@ -1268,6 +1268,7 @@ vnacal_t *vnacal_load(const char *pathname,
     yaml_parser_t parser;
     yaml_node_t *root;
     bool delete_document = false;
+    bool delete_parser = false;
     char line_buf[81];
 
     /*
@@ -1349,6 +1350,7 @@ vnacal_t *vnacal_load(const char *pathname,
 	goto error;
     }
     yaml_parser_initialize(&parser);
+    delete_parser = true;
     yaml_parser_set_input_file(&parser, fp);
     if (!yaml_parser_load(&parser, &vls.vls_document)) {
 	_vnacal_error(vcp, VNAERR_SYNTAX, "%s (line %ld) error: %s",
@@ -1368,11 +1370,15 @@ vnacal_t *vnacal_load(const char *pathname,
 	goto error;
     }
     yaml_document_delete(&vls.vls_document);
+    yaml_parser_delete(&parser);
     return vcp;
 
 error:
     if (delete_document) {
 	yaml_document_delete(&vls.vls_document);
+    }
+    if (delete_parser) {
+	yaml_parser_delete(&parser);
     }
     if (fp != NULL) {
 	(void)fclose(fp);
